@@ -59,6 +59,7 @@ type Config struct {
 	Seed            int64
 	WitnessEvery    int
 	MaxWitnesses    int
+	EscalateFeasibility bool
 }
 
 // Explorer is shared by all workers of one harness run.
@@ -169,6 +170,7 @@ type Engine struct {
 	noSlice  bool
 	SlicedOut int
 	in       *interpreter
+	lin      *linSys
 }
 
 func newEngine(x *Explorer) (*Engine, error) {
@@ -188,6 +190,7 @@ func (e *Engine) resetPath(prefix []dec) {
 	e.pcSet = map[int]bool{}
 	e.dom = map[int]*bitset256{}
 	e.uf = map[int]int{}
+	e.lin = nil
 	e.pcRep = e.pcRep[:0]
 	e.entangled = map[int]bool{}
 	e.newWork = nil
@@ -220,6 +223,7 @@ func (e *Engine) addPC(c *Term) {
 		return
 	}
 	e.pcSet[c.ID] = true
+	e.linAdd(c)
 	if tt := e.truthTable(c); tt != nil {
 		d := e.dom[c.sv.ID]
 		if d == nil {
@@ -559,7 +563,7 @@ func (e *Engine) branch(c *Term) bool {
 		fmt.Fprintf(os.Stderr, "SOLVER-BRANCH sv=%v size=%d %s\n  at %s\n", c.sv != nil, c.size, truncate(c.String(), 300), e.where())
 	}
 	rT := e.check(c)
-	if rT == Unknown {
+	if rT == Unknown && e.cfg.EscalateFeasibility {
 		rT = e.escalate(c)
 	}
 	if rT == Unsat {
@@ -567,7 +571,7 @@ func (e *Engine) branch(c *Term) bool {
 		return false
 	}
 	rF := e.check(nc)
-	if rF == Unknown {
+	if rF == Unknown && e.cfg.EscalateFeasibility {
 		rF = e.escalate(nc)
 	}
 	if rF == Unsat {
@@ -710,6 +714,12 @@ func (e *Engine) outside(reason string) {
 func (e *Engine) note(s string) { e.notes[s]++ }
 
 var debugQ = os.Getenv("GOSYM_DEBUGQ") != ""
+
+func init() {
+	if debugQ {
+		strDepth = 12
+	}
+}
 
 func truncate(s string, n int) string {
 	if len(s) > n {
@@ -859,9 +869,21 @@ func (e *Engine) assert(c *Term, msg string) {
 		// of its conjunct, which keeps byte-vector equalities cheap
 		var failing *Term
 		allUnsat := true
+		memo := map[int]*Term{}
 		for _, a := range c.Args {
 			if e.implied(a) == 1 {
 				continue
+			}
+			// reduce modulo the linear facts of the path condition
+			if a2 := e.rewrite(a, memo); a2 != a {
+				e.note("assert-conjunct-rewritten")
+				a = a2
+				if a.IsTrue() || e.implied(a) == 1 {
+					continue
+				}
+			}
+			if debugQ {
+				fmt.Fprintf(os.Stderr, "ASSERT-CONJUNCT lin=%d %s\n", func() int { if e.lin == nil { return 0 }; return len(e.lin.rows) }(), truncate(a.String(), 400))
 			}
 			switch e.check(e.st.BNot(a)) {
 			case Unsat:
